@@ -28,7 +28,7 @@ from harness import walklib as W
 from harness.common import Result, run_driver
 
 ASSUMPTIONS = [
-    "OID domain of x690: >= 2 arcs, arc0 <= 2, arc1 < 40 (40*arc0+arc1 must fit the first octet); outside it x690 raises or mis-encodes (DESIGN.md)",
+    "OID domain of the theorems: >= 2 arcs, arc0 <= 2, arc1 < 40; OIDs 2.48 .. 2.175 are mis-encoded by x690 (known finding C05-x690-oid-second-arc, exercised by the second-arc suite), 2.176 and above are refused",
     "the digest octets and the ciphertext are taken from the wire (C10 / C11 decide them)",
 ]
 SUBS = [0, 1, 127, 128, 16383, 16384, 2**21, 2**28, 2**32 - 1]
@@ -192,6 +192,37 @@ def one_case(ctx, res, i, reqs, impls):
     impls.append((case, wire.hex(), plain.hex() if version == "v3" and plain is not None else None))
 
 
+def second_arc(ctx, res):
+    """OIDs below joint-iso-itu-t(2) whose second arc is 40 or more (legal: X.660; BER packs
+    40*2+arc1 into the first SUB-IDENTIFIER, which then needs more than one octet from 2.48 on)"""
+    from puresnmp import Client
+    from puresnmp.credentials import V2C
+
+    for b in (39, 40, 47, 48, 100, 175, 999):
+        oid = [2, b, 3]
+        agent = RA.Agent(db=[((1, 3, 6, 1, 2, 1, 1, 1, 0), ["int", 1])])
+        seam = Seam(agent)
+        client = Client("127.0.0.1", V2C("public"), sender=seam)
+        refused = None
+        try:
+            W.run(client.get(RA.OID(oid)))
+        except Exception as exc:  # noqa: BLE001
+            refused = type(exc).__name__
+        res.evaluations += 1
+        res.count("second-arc")
+        if not seam.datagrams:
+            res.count(f"second-arc-refused:{refused}")
+            continue  # nothing was emitted: refusing is not a malformed datagram
+        try:
+            got = [list(o) for o, _ in B.parse_message(seam.datagrams[0])["pdu"]["varbinds"]]
+        except B.BerError as exc:
+            got = str(exc)
+        if got != [oid]:
+            res.violate("second-arc", {"oid": oid, "datagram": seam.datagrams[0].hex()}, [oid], got,
+                        "the independent decoder reads a different OID: the first two arcs were packed into one OCTET instead of one sub-identifier",
+                        {"kind": "emit", "what": "oid-second-arc"})
+
+
 def walk_requests(ctx, res, reqs, impls):
     """the requests inside walks: each is a getnext / getbulk for the cursors, as the walk model says"""
     for i in range(ctx.budget(40, 600)):
@@ -235,6 +266,7 @@ def run(ctx):
     for i in range(ctx.budget(900, 30000)):
         one_case(ctx, res, i, reqs, impls)
     walk_requests(ctx, res, reqs, impls)
+    second_arc(ctx, res)
     if ctx.driver_ok:
         for (case, wire, plain), ans in zip(impls, run_driver(reqs)):
             res.case("seam", case)
